@@ -1,4 +1,4 @@
-use super::decoder::LF;
+use super::decoder::{CR, LF};
 use super::resp::{AdvanceIndex, ArrayIndex, BulkStrIndex, DataIndex, IndexedResp, RespIndex};
 use btoi::btoi;
 use bytes::BytesMut;
@@ -78,6 +78,9 @@ pub fn parse_resp(buf: &[u8]) -> Result<(RespIndex, usize), ParseError> {
 
 fn parse_array(buf: &[u8]) -> Result<(ArrayIndex, usize), ParseError> {
     let (len, mut consumed) = parse_len(buf)?;
+    if len < -1 {
+        return Err(ParseError::InvalidProtocol);
+    }
     if len < 0 {
         return Ok((ArrayIndex::Nil, consumed));
     }
@@ -99,6 +102,9 @@ fn parse_array(buf: &[u8]) -> Result<(ArrayIndex, usize), ParseError> {
 
 fn parse_bulk_str(buf: &[u8]) -> Result<(BulkStrIndex, usize), ParseError> {
     let (len, consumed) = parse_len(buf)?;
+    if len < -1 {
+        return Err(ParseError::InvalidProtocol);
+    }
     if len < 0 {
         return Ok((BulkStrIndex::Nil, consumed));
     }
@@ -106,6 +112,11 @@ fn parse_bulk_str(buf: &[u8]) -> Result<(BulkStrIndex, usize), ParseError> {
     let content_size = len as usize;
     if buf.len() < consumed + content_size + 2 {
         return Err(ParseError::NotEnoughData);
+    }
+    if buf.get(consumed + content_size) != Some(&CR)
+        || buf.get(consumed + content_size + 1) != Some(&LF)
+    {
+        return Err(ParseError::InvalidProtocol);
     }
 
     let s = DataIndex(consumed, consumed + content_size);
@@ -124,7 +135,7 @@ fn parse_len(buf: &[u8]) -> Result<(i64, usize), ParseError> {
 
 fn parse_line(buf: &[u8]) -> Result<(DataIndex, usize), ParseError> {
     let lf_index = memchr(LF, buf).ok_or(ParseError::NotEnoughData)?;
-    if lf_index == 0 {
+    if lf_index == 0 || buf.get(lf_index - 1) != Some(&CR) {
         return Err(ParseError::InvalidProtocol);
     }
 
